@@ -41,6 +41,7 @@ type Peer struct {
 	D           *document.Document
 	Attached    bool
 	SnapshotFed bool
+	Purged      bool
 	Late        bool
 	ID          string
 }
@@ -120,6 +121,12 @@ func (r *Runner) sink(ex *world.Exchange) {
 		}
 		if len(pack.Changes) > 0 {
 			r.Ev["change_pull"]++
+			if p.SnapshotFed {
+				r.Ev["pull_on_snapshot_fed"]++
+			}
+			if p.Purged {
+				r.Ev["pull_after_purge"]++
+			}
 		}
 	}
 	if r.OnExchange != nil && p != nil {
@@ -208,6 +215,7 @@ func (r *Runner) sync(p *Peer, pushOnly bool) *Failure {
 	}
 	if p.D.GarbageLen() < before {
 		r.Ev["client_gc_purged"]++
+		p.Purged = true
 	}
 	r.S.WaitIdle()
 	if r.ExFail != nil {
@@ -253,6 +261,20 @@ func (r *Runner) Step(s Step) *Failure {
 			return failf("EDITFAIL", "c%d %s: %v", p.Idx, desc, err)
 		}
 		r.Ev["edit"]++
+		if r.P.Cfg.Flags["serial"] == 1 {
+			// Serial stratum: every edit is delivered to everyone before
+			// the next one, so the history contains no concurrency.
+			if f := r.sync(p, false); f != nil {
+				return f
+			}
+			for _, q := range r.Peers {
+				if q != p && q.Attached {
+					if f := r.sync(q, false); f != nil {
+						return f
+					}
+				}
+			}
+		}
 		return nil
 	case s.Op == "sync" || s.Op == "pushonly":
 		if !p.Attached {
